@@ -25,7 +25,6 @@ package main
 import (
 	"errors"
 	"fmt"
-	"os"
 	"reflect"
 	"sort"
 	"strconv"
@@ -276,7 +275,7 @@ func classOf(store sk.Kind) (*classification, error) {
 		return c, classErr[store]
 	}
 	dir := sk.ScratchDir()
-	defer os.RemoveAll(dir)
+	defer kit.RemoveScratch(dir)
 	c, err := classify(store, dir)
 	classes[store], classErr[store] = c, err
 	return c, err
@@ -306,7 +305,7 @@ func execute(c *mc.Ctx, tier string, store sk.Kind, history []string, fullOracle
 		return "", nil, &herr{err.Error()}
 	}
 	dir := sk.ScratchDir()
-	defer os.RemoveAll(dir)
+	defer kit.RemoveScratch(dir)
 	n := sk.Open(store, dir)
 	defer n.Close()
 	chain := sk.NewChain(store)
